@@ -599,6 +599,7 @@ def corpus_cases():
 
 
 N_THEOREMS = 24
+N_THEOREMS2 = 10
 
 
 def lake_build_retry(ctx, targets):
@@ -631,6 +632,12 @@ def main(ctx):
         ctx.audit("GojaModel.C18.Props", expect_min=N_THEOREMS)
         if not quick:
             ctx.leanchecker("GojaModel.C18.Props")
+        # part 2 (representation-level refinement); built separately so that it can never mask part 1
+        ok2, _ = lake_build_retry(ctx, ["GojaModel.C18.Props2"])
+        if ok2:
+            ctx.audit("GojaModel.C18.Props2", expect_min=N_THEOREMS2)
+            if not quick:
+                ctx.leanchecker("GojaModel.C18.Props2")
     model = ctx.model_exe() if os.path.exists(ctx.model_exe()) and ok else None
     h = ctx.go_build()
     if h is None:
